@@ -6,7 +6,7 @@ from __future__ import annotations
 
 import importlib
 
-MODULES = ["pymath", "misc", "geom", "nptable", "quat"]
+MODULES = ["pymath", "misc", "geom", "nptable", "quat", "mat"]
 
 
 def install(it):
